@@ -1,5 +1,4 @@
 // C15 harness: invalid (and valid) arguments to checked operations; outcome = value | nothing | crash(kind, by the runner)
-#include "nmtools/array/ndarray.hpp"
 #include "nmtools/array/view/reshape.hpp"
 #include "nmtools/array/view/transpose.hpp"
 #include "nmtools/array/view/moveaxis.hpp"
@@ -19,42 +18,7 @@
 #include "nmtools/array/view/atleast_nd.hpp"
 #include "nmtools/array/view/where.hpp"
 #include "nmtools/array/view/flatten.hpp"
-#include "nmtools/array/eval.hpp"
-#include "nmtools/utility/has_value.hpp"
-#include "nmtools/utility/unwrap.hpp"
-#include "proto.hpp"
-#include <vector>
-
-namespace nm = nmtools; namespace na = nmtools::array; namespace view = nmtools::view; namespace meta = nmtools::meta;
-using namespace proto;
-using nd_t = na::ndarray_t<std::vector<int>, std::vector<size_t>>;
-
-static nd_t iota(const uvec& s, int base=0) {
-    nd_t a; a.resize(s); size_t n = nm::size(a); for (size_t k=0;k<n;k++) a.data()[k] = base + (int)k; return a;
-}
-template <typename V> static std::string fmtn(const V& v) {
-    return fmt_with(v, [](const auto& x){ return (size_t)nm::len(x); }, [](const auto& x, size_t i){ return nm::at(x,i); });
-}
-// read every element of an (unwrapped) array/view
-template <typename V> static std::string dump(const V& v) {
-    auto shape = nm::shape(v);
-    uvec s; for (size_t i=0;i<(size_t)nm::len(shape);i++) s.push_back((size_t)nm::at(shape,i));
-    size_t n = 1; for (auto e : s) n *= e;
-    std::vector<long long> d;
-    auto nd = nm::index::ndindex(s);
-    for (size_t k=0;k<n;k++) d.push_back((long long)nm::apply_at(v, nd[k]));
-    return "ok shape=" + fmt(s) + " data=" + fmt(d);
-}
-template <typename V> static std::string outcome(const V& v) {
-    if constexpr (meta::is_maybe_v<V>) { if (!nm::has_value(v)) return "nothing"; return dump(*v); }
-    else return dump(v);
-}
-// evaluate too: eval of an empty optional must stay empty
-template <typename V> static std::string outcome_eval(const V& v) {
-    auto r = na::eval(v);
-    std::string a = outcome(v), b = outcome(r);
-    return a==b ? a : ("view/eval-differ view=" + a + " eval=" + b);
-}
+#include "c15_common.hpp"
 
 std::string handle(const std::string& op, const Args& a) {
     auto shape = nats(a,"shape");
@@ -71,7 +35,9 @@ std::string handle(const std::string& op, const Args& a) {
     if (op=="matmul")       { nd_t y = iota(nats(a,"shape2"), 1); return outcome_eval(view::matmul(x, y)); }
     if (op=="pad")          { auto w = intsi(a,"width"); return outcome_eval(view::pad(x, w, -1)); }
     if (op=="tile")         { auto r = intsi(a,"reps"); return outcome_eval(view::tile(x, r)); }
-    if (op=="repeat")       { int r = (int)integer(a,"repeats"); int ax = (int)integer(a,"axis"); return outcome_eval(view::repeat(x, r, ax)); }
+    if (op=="repeat")       { int ax = (int)integer(a,"axis");
+                              if (has(a,"counts")) { auto c = intsi(a,"counts"); return outcome_eval(view::repeat(x, c, ax)); }
+                              int r = (int)integer(a,"repeats"); return outcome_eval(view::repeat(x, r, ax)); }
     if (op=="roll")         { int sh = (int)integer(a,"shift"); int ax = (int)integer(a,"axis"); return outcome_eval(view::roll(x, sh, ax)); }
     if (op=="sum")          { int ax = (int)integer(a,"axis"); return outcome_eval(view::sum(x, ax)); }
     if (op=="where3")       { nd_t y = iota(nats(a,"shape2"), 1000); nd_t z = iota(nats(a,"shape3"), 2000);
@@ -82,5 +48,14 @@ std::string handle(const std::string& op, const Args& a) {
     if (op=="pipe_reshape_sum")       { auto t = intsi(a,"to"); int ax = (int)integer(a,"axis"); return outcome_eval(view::sum(view::reshape(x, t), ax)); }
     if (op=="pipe_bcast_add_flatten") { auto t = nats(a,"to"); nd_t y = iota(nats(a,"shape2"), 1000); return outcome_eval(view::flatten(view::add(view::broadcast_to(x, t), y))); }
     if (op=="pipe_add_reshape")       { nd_t y = iota(nats(a,"shape2"), 1000); auto t = intsi(a,"to"); return outcome_eval(view::reshape(view::add(x, y), t)); }
+    // depth 3, and stages that accept a maybe-typed operand after a stage that may have failed
+    if (op=="pipe_reshape_transpose_reshape") { auto t = intsi(a,"to"); auto t2 = intsi(a,"to2"); return outcome_eval(view::reshape(view::transpose(view::reshape(x, t)), t2)); }
+    if (op=="pipe_reshape_bcast_add")   { auto t = intsi(a,"to"); auto t2 = nats(a,"to2"); nd_t y = iota(nats(a,"shape2"), 1000); return outcome_eval(view::add(view::broadcast_to(view::reshape(x, t), t2), y)); }
+    if (op=="pipe_add_reshape_sum")     { nd_t y = iota(nats(a,"shape2"), 1000); auto t = intsi(a,"to"); return outcome_eval(view::sum(view::reshape(view::add(x, y), t), 0)); }
+    if (op=="pipe_reshape_repeat")      { auto t = intsi(a,"to"); int ax = (int)integer(a,"axis"); return outcome_eval(view::repeat(view::reshape(x, t), 2, ax)); }
+    if (op=="pipe_reshape_tile")        { auto t = intsi(a,"to"); auto r = intsi(a,"reps"); return outcome_eval(view::tile(view::reshape(x, t), r)); }
+    if (op=="pipe_reshape_concat")      { auto t = intsi(a,"to"); nd_t y = iota(nats(a,"shape2"), 1000); int ax = (int)integer(a,"axis"); return outcome_eval(view::concatenate(view::reshape(x, t), y, ax)); }
+    if (op=="pipe_concat_reshape")      { nd_t y = iota(nats(a,"shape2"), 1000); int ax = (int)integer(a,"axis"); auto t = intsi(a,"to"); return outcome_eval(view::reshape(view::concatenate(x, y, ax), t)); }
+    if (op=="pipe_bcast_transpose_flatten") { auto t = nats(a,"to"); auto ax = intsi(a,"axes"); return outcome_eval(view::flatten(view::transpose(view::broadcast_to(x, t), ax))); }
     return "unknown-op";
 }
